@@ -296,8 +296,22 @@ func (f *Forwarder) ServeDNS(ctx context.Context, ch *middleware.Chain) {
 			continue
 		}
 
+		// The exchange vouches for the ID and a case-insensitive question
+		// match only. A packet without QR (an echo of the query) or under
+		// another opcode is not a response to this query; relayed, it
+		// reached the client, and the cache, as the answer.
+		if !resp.Response || resp.Opcode != req.Opcode {
+			forwarderFailures.Inc()
+			zlog.Info("forwarder dropped a reply that is not a response to the query",
+				"query", dnsutil.FormatQuestion(req.Question[0]), "qr", resp.Response, "opcode", resp.Opcode)
+			continue
+		}
+
 		resp.Id = req.Id
 		resp.CheckingDisabled = clientCD
+		// The client is answered under its own spelling of the question,
+		// whatever letter case the upstream sent back.
+		resp.Question = append(resp.Question[:0], req.Question...)
 		responseType, _ := dnsutil.ClassifyResponse(resp, time.Now())
 		if responseType == dnsutil.TypeServerFailure {
 			// A DNS response is not necessarily a useful response. RFC 9520
